@@ -262,7 +262,7 @@ for tag in ('f32', 'f64'):
                 RP(fn, 'glm::unProject%s (%s model/proj)  %s' % (Z, gen, PJ),
                   requires=UREQ + [('preimage_is_a_finite_point', 'det(setcol(%s, 3, %s)) != 0' % (PM, Q))],
                   ensures=[('projects_back_to_win', 'And(proportional(matvec(%s, [out[0], out[1], out[2], 1]), %s))' % (PM, Q))],
-                  tier='quick' if gen in CHEAP else 'thorough', timeout=300 if gen in CHEAP else 600)
+                  tier='quick' if gen in CHEAP else 'thorough', timeout=300)
             # unProject(project(obj)) == obj
             fn = 'glm_unProject%s_of_project%s_%s_%s' % (Z, Z, gen, tag)
             dp.shim(fn, 'void', OBJ + gins + VP, 'auto q = glm::unProject%s(glm::project%s(%s, %s, %s, %s), %s, %s, %s); %s' % (
